@@ -127,16 +127,22 @@ func hexDigit(n *term.Term, upper bool) *term.Term {
 }
 
 // hexDigits renders an unsigned value in hex, splitting by digit count.
-func (ex *Exec) hexDigits(st *State, v *term.Term, upper bool) []rendered {
+func (ex *Exec) hexDigits(st *State, v *term.Term, upper bool, minDigits int) []rendered {
 	w := v.W()
 	nd := (w + 3) / 4
+	if minDigits < 1 {
+		minDigits = 1
+	}
+	if minDigits > nd {
+		minDigits = nd
+	}
 	var cands []struct {
 		cond *term.Term
 		k    int
 	}
-	for k := 1; k <= nd; k++ {
+	for k := minDigits; k <= nd; k++ {
 		var lo, hi *term.Term = term.True(), term.True()
-		if k > 1 {
+		if k > minDigits {
 			lo = term.Uge(v, term.Const(w, uint64(1)<<uint(4*(k-1))))
 		}
 		if 4*k < w {
@@ -151,6 +157,7 @@ func (ex *Exec) hexDigits(st *State, v *term.Term, upper bool) []rendered {
 		}
 	}
 	var out []rendered
+	ex.tracef("hexDigits w=%d min=%d cands=%d", w, minDigits, len(cands))
 	for i, cd := range cands {
 		var ns *State
 		if i == len(cands)-1 {
@@ -250,7 +257,11 @@ func (ex *Exec) renderArg(c *CallCtx, st *State, sp *fmtSpec, arg Value) []rende
 		switch sp.verb {
 		case 'd', 'v':
 			var out []rendered
-			for _, r := range ex.decimalDigits(st, x, sg) {
+			md := 1
+			if sp.hasWidth && sp.zero && !sp.minus {
+				md = sp.width
+			}
+			for _, r := range ex.decimalDigits(st, x, sg, md) {
 				signLen := 0
 				if len(r.out) > 0 && r.out[0].IsConst() && r.out[0].Val == '-' {
 					signLen = 1
@@ -263,7 +274,11 @@ func (ex *Exec) renderArg(c *CallCtx, st *State, sp *fmtSpec, arg Value) []rende
 				abort("UNSUPPORTED", "%%x of a signed integer")
 			}
 			var out []rendered
-			for _, r := range ex.hexDigits(st, x, sp.verb == 'X') {
+			md := 1
+			if sp.hasWidth && sp.zero && !sp.minus {
+				md = sp.width
+			}
+			for _, r := range ex.hexDigits(st, x, sp.verb == 'X', md) {
 				out = append(out, rendered{r.st, pad(r.out, sp, true, 0)})
 			}
 			return out
@@ -275,11 +290,8 @@ func (ex *Exec) renderArg(c *CallCtx, st *State, sp *fmtSpec, arg Value) []rende
 			return []rendered{{st, pad(enc, sp, false, 0)}}
 		case 'U':
 			var out []rendered
-			for _, r := range ex.hexDigits(st, x, true) {
+			for _, r := range ex.hexDigits(st, x, true, 4) {
 				bs := r.out
-				for len(bs) < 4 {
-					bs = append([]*term.Term{term.Const(8, '0')}, bs...)
-				}
 				out = append(out, rendered{r.st, append(Str("U+").B, bs...)})
 			}
 			return out
